@@ -66,6 +66,8 @@ type sim struct {
 	v2active     uint32 // simulated DPoS v2 activation height (0: never)
 	frozen       int    // actor whose address is frozen (-1: none)
 	frozenHeight uint32
+	ccFreeze     uint32 // cross-chain UTXO freeze height (0: policy disabled)
+	ccRestrict   uint32 // cross-chain UTXO restriction height
 }
 
 func (s *sim) now() time.Time { return time.Now() }
@@ -132,6 +134,11 @@ func execute(c *core.Ctx) {
 	seedGlobals(p.Seed)
 	s.actors = makeActors(p.Seed, int(p.Knob("actors", 5)))
 	s.nKeyed = len(s.actors)
+	// actor order (the generator relies on it): key holders, the cross-chain
+	// address, multisig addresses, script addresses
+	if p.Knob("ccactor", 0) > 0 {
+		s.actors = addCrossChainActor(s.actors, p.Seed)
+	}
 	s.actors = addMultisigActors(s.actors, s.nKeyed, p.Seed, int(p.Knob("multi", 0)))
 	s.actors = addScriptActors(s.actors, p.Seed, int(p.Knob("weird", 0)), int(p.Knob("weirdpick", 0)))
 	if err := s.start(true); err != nil {
@@ -294,6 +301,8 @@ func propOfReason(why string) string {
 		return "C11"
 	case "frozen-address":
 		return "C32"
+	case "crosschain-utxo-frozen", "crosschain-utxo-restricted":
+		return "C31"
 	case "auxpow-for-other-hash":
 		return "C10"
 	}
